@@ -64,6 +64,7 @@ type netSim struct {
 	claimed map[string]bool
 	restarts int // restarts done so far
 	walDir   string
+	waitTxs  bool
 }
 
 func (s *netSim) nameBlock(h uint64, id types.BlockID, prefix string) string {
@@ -293,7 +294,7 @@ func stopGatedNode(g *gated) {
 // WAL directory the way the node starts (load state, open the WAL, catchupReplay, receive routine).
 func (s *netSim) restart(nd *netNode) {
 	stopGatedNode(nd.g)
-	n2, err := BuildNode(s.w, nd.ID, Opts{DB: nd.db, Fresh: false, Cache: cacheFor("flush"), RootDir: nd.root})
+	n2, err := BuildNode(s.w, nd.ID, Opts{DB: nd.db, Fresh: false, Cache: cacheFor("flush"), RootDir: nd.root, WaitTxs: s.waitTxs})
 	if err != nil {
 		panic(fmt.Sprintf("validator %d does not start after a restart: %v", nd.ID, err))
 	}
@@ -441,6 +442,7 @@ type netCfg struct {
 	byzPct     int
 	restarts   int // at most this many restarts of correct nodes in the adversarial phase (> 0: every node is gated)
 	restartPct int // probability (in 1/1000) per scheduler step
+	waitTxs    bool // default configuration: CreateEmptyBlocksInterval > 0
 }
 
 func newNetSim(cfg netCfg, seed int64, walDir string) (*netSim, error) {
@@ -448,7 +450,7 @@ func newNetSim(cfg netCfg, seed int64, walDir string) (*netSim, error) {
 	s := &netSim{w: w, rng: rand.New(rand.NewSource(seed)), nodes: map[int]*netNode{}, byz: cfg.byz,
 		names: map[uint64]map[common.Hash]string{}, pnames: map[common.Hash]string{}, ids: map[string]types.BlockID{},
 		parts: map[string][]*types.Part{}, counter: map[uint64]int{}, nodeNo: map[int]int{}, byzSent: map[string]bool{},
-		cut: -1, claimed: map[string]bool{}}
+		cut: -1, claimed: map[string]bool{}, waitTxs: cfg.waitTxs}
 	isByz := map[int]bool{}
 	for _, b := range cfg.byz {
 		isByz[b] = true
@@ -457,7 +459,7 @@ func newNetSim(cfg netCfg, seed int64, walDir string) (*netSim, error) {
 		if isByz[i] {
 			continue
 		}
-		o := Opts{Fresh: true}
+		o := Opts{Fresh: true, WaitTxs: cfg.waitTxs}
 		nn := &netNode{}
 		if cfg.restarts > 0 {
 			db := memorydb.New()
@@ -465,7 +467,7 @@ func newNetSim(cfg netCfg, seed int64, walDir string) (*netSim, error) {
 				return nil, err
 			}
 			nn.db, nn.root = db, filepath.Join(walDir, fmt.Sprintf("n%d", i))
-			o = Opts{DB: db, Fresh: true, Cache: cacheFor("flush"), RootDir: nn.root}
+			o = Opts{DB: db, Fresh: true, Cache: cacheFor("flush"), RootDir: nn.root, WaitTxs: cfg.waitTxs}
 		}
 		nd, err := BuildNode(w, i, o)
 		if err != nil {
@@ -503,7 +505,7 @@ func (s *netSim) header(maxH, maxR int) J {
 			inv = append(inv, fmt.Sprintf("X%d_%d", h, k))
 		}
 	}
-	return J{"t": "hdr", "n": len(s.order), "power": pw, "prop": s.w.ProposerTable(maxH, maxR), "me": s.order, "invalid": inv}
+	return J{"t": "hdr", "n": len(s.order), "power": pw, "prop": s.w.ProposerTable(maxH, maxR), "me": s.order, "invalid": inv, "wait": s.waitTxs}
 }
 
 func (s *netSim) start() {
@@ -863,6 +865,9 @@ var netConfigs = map[string]netCfg{
 	"5w-byz":    {powers: []int64{3, 2, 2, 1, 1}, byz: []int{2}, maxH: 3, maxSteps: 3000, dropPct: 8, reorderPct: 35, earlyPct: 25, byzPct: 6},
 	"7eq-byz2":  {powers: []int64{1, 1, 1, 1, 1, 1, 1}, byz: []int{3, 6}, maxH: 3, maxSteps: 4000, dropPct: 6, reorderPct: 30, earlyPct: 20, byzPct: 6},
 	"3eq-nobyz": {powers: []int64{1, 1, 1}, byz: nil, maxH: 4, maxSteps: 2000, dropPct: 10, reorderPct: 40, earlyPct: 30, byzPct: 0},
+	// the default configuration (WaitForTxs with CreateEmptyBlocksInterval): round 1 waits for the NewRound timeout
+	"4eq-wait":   {powers: []int64{1, 1, 1, 1}, byz: []int{4}, maxH: 4, maxSteps: 2500, dropPct: 8, reorderPct: 35, earlyPct: 25, byzPct: 6, waitTxs: true},
+	"4w-wait-restart": {powers: []int64{3, 2, 2, 2}, byz: []int{3}, maxH: 5, maxSteps: 3000, dropPct: 6, reorderPct: 30, earlyPct: 20, byzPct: 5, restarts: 6, restartPct: 6, waitTxs: true},
 	// restarts of correct nodes between handler calls (real receive routine, file WAL, catchupReplay)
 	"4eq-restart":  {powers: []int64{1, 1, 1, 1}, byz: []int{4}, maxH: 5, maxSteps: 3000, dropPct: 8, reorderPct: 35, earlyPct: 25, byzPct: 5, restarts: 6, restartPct: 6},
 	"4w-restart":   {powers: []int64{3, 2, 2, 2}, byz: nil, maxH: 6, maxSteps: 3000, dropPct: 5, reorderPct: 30, earlyPct: 15, byzPct: 0, restarts: 8, restartPct: 8},
